@@ -15,6 +15,10 @@ from .model import concrete_bins, build_cooler_sym, build_cooler_real
 from engine.symnp import _sel
 
 
+# (row region, column region, bbox in bins of 10 bp): none, one region, columns downstream of rows, columns UPSTREAM of rows
+RANGES = {0: (None, None, None), 1: ("c0:0-20", None, (0, 2, 0, 2)), 2: ("c0:0-20", "c0:10-30", (0, 2, 1, 3)), 3: ("c0:10-30", "c0:0-20", (1, 3, 0, 2))}
+
+
 def PathAbortNow():
     from engine.symcore import PathAbort
     return PathAbort()
@@ -56,10 +60,10 @@ def dump_sym(p):
     if cols and join:
         raise PathAbortNow()
     D.dump.callback(cool_uri=path, table="pixels", columns=cols, header=False, na_rep="", float_format="g",
-                    range="c0:0-20" if use_range else None, range2="c0:10-30" if use_range == 2 else None, fill_lower=fill_lower, balanced=False,
+                    range=RANGES[use_range][0], range2=RANGES[use_range][1], fill_lower=fill_lower, balanced=False,
                     join=join, annotate=None, one_based_ids=one_ids, one_based_starts=one_starts, chunksize=concretize(sym_int("chunksize", 1, K + 1)), out=out)
     frames = [f for f in sympd.CSV_LOG if len(f)]
-    bbox = (0, n, 0, n) if not use_range else ((0, 2, 0, 2) if use_range == 1 else (0, 2, 1, 3))
+    bbox = (0, n, 0, n) if not use_range else RANGES[use_range][2]
     exp = _expected_rows(bins, b1, b2, v, upper, fill_lower, join, one_ids, one_starts, bbox)
     want = [(r, c, x) for cond, r, c, x in exp if bool(cond)]
     got = []
@@ -110,11 +114,11 @@ def dump_real(p, inputs):
     out = scratch_file("c16.tsv")
     cols = tuple(p["columns"]) if p.get("columns") else None
     D.dump.callback(cool_uri=path, table="pixels", columns=cols, header=True, na_rep="", float_format="g",
-                    range="c0:0-20" if use_range else None, range2="c0:10-30" if use_range == 2 else None, fill_lower=fill_lower, balanced=False,
+                    range=RANGES[use_range][0], range2=RANGES[use_range][1], fill_lower=fill_lower, balanced=False,
                     join=join, annotate=None, one_based_ids=one_ids, one_based_starts=one_starts, chunksize=inputs["chunksize"], out=out)
     txt = open(out).read()
     df = pd.read_csv(io.StringIO(txt), sep="\t") if txt.strip() else pd.DataFrame()
-    bbox = (0, n, 0, n) if not use_range else ((0, 2, 0, 2) if use_range == 1 else (0, 2, 1, 3))
+    bbox = (0, n, 0, n) if not use_range else RANGES[use_range][2]
     exp = _expected_rows(bins, b1, b2, v, upper, fill_lower, join, one_ids, one_starts, bbox)
     want = [(r, c, x) for cond, r, c, x in exp if cond]
     if len(df) != len(want):
@@ -141,8 +145,8 @@ def _dump_cases(tier):
     out = []
     for n, K in ([(3, 2)] if tier == "quick" else [(3, 2), (3, 3), (4, 3)]):
         for upper in (True, False):
-            for rng in (0, 1, 2):
-                if tier == "quick" and not upper and rng:
+            for rng in (0, 1, 2, 3):
+                if tier == "quick" and not upper and rng not in (0, 3):
                     continue
                 out.append(dict(n=n, K=K, upper=upper, range=rng))
     out.append(dict(n=3, K=2, upper=True, range=0, columns=["bin2_id", "count"]))
@@ -195,6 +199,9 @@ def wiring_sym(p):
         _intercept(M)
         names = ["chrom1", "pos1", "chrom2", "pos2", "x"]
         cols = [sym_int(f"col_{nm}", 1, p.get("maxcol", ncols)) for nm in names[:4]] + [sym_int("col_x", p.get("xmin", 1), ncols)]
+        if p.get("fixed_pos"):
+            for cvar, val in zip(cols[:4], p["fixed_pos"]):
+                CTX.add(cvar.e == val)
         for i in range(len(cols)):
             for j in range(i):
                 CTX.add(cols[i].e != cols[j].e)
@@ -385,7 +392,7 @@ CHECKS = [
           bounds=dict(quick="n=3 bins, K=2 pixels, both modes, no region / one region / two regions", thorough="n<=4, K<=3"),
           stubs=("E9 to_csv rendering replaced by a row recorder (real side parses the text back)", "E3", "E4"),
           outside=("CSV number formatting, gzip output", "--balanced / --annotate columns (C12, C14)"), timeout=2400, split_depth=6),
-    Check("field_wiring", lambda tier: [dict(cmd="pairs", maxcol=5, xmin=6) if tier == "quick" else dict(cmd="pairs"), dict(cmd="load")], wiring_sym, wiring_real, labels=("non_monotone",),
+    Check("field_wiring", lambda tier: ([dict(cmd="pairs", maxcol=5, xmin=6), dict(cmd="pairs", fixed_pos=[2, 3, 5, 6])] if tier == "quick" else [dict(cmd="pairs")]) + [dict(cmd="load")], wiring_sym, wiring_real, labels=("non_monotone",),
           doc="cload pairs / load run up to the parser call with symbolic field numbers: under E6 every name is bound to the column the user asked for; "
               "every explored layout is then run end to end through the real command on a text file laid out that way",
           bounds=dict(all="7 columns; positional fields and one value field at any distinct column numbers (pairs); two value fields at any distinct columns (load)"),
